@@ -82,7 +82,7 @@ def main():
             if os.path.exists(p):
                 try:
                     j = json.load(open(p))
-                    if 'confirmation' in j:
+                    if 'confirmation' in j or 'proposer' in j or 'detection' in j:
                         j = j.get('proposer', {})
                     meta['proposer'] = j
                 except Exception:
